@@ -157,6 +157,26 @@ pub fn run(c: &Case, rep: &mut Report) {
             }
         }
     }
+    // one configuration value, four parses, a callback that rejects the first module it sees
+    if let Some(l) = end.str("reuse") {
+        rep.count("configuration-values-reused-for-four-parses", 1);
+        let steps: Vec<(&str, u64)> = l.split(' ').filter_map(|x| x.split_once(':')).map(|(a, b)| (a, b.parse().unwrap_or(99))).collect();
+        let valid = v_default.is_ok();
+        for (i, (verdict, calls)) in steps.iter().enumerate() {
+            let bad = match *verdict {
+                "ok" => *calls != 1,
+                "panic" => true,
+                // a failed parse: the callback did not run, unless it is the callback itself that rejected (its first run)
+                _ => !(*calls == 0 || (*calls == 1 && i == steps.iter().position(|s| s.1 > 0).unwrap_or(usize::MAX))),
+            };
+            // a valid input must be accepted from the second parse on
+            let should_succeed = valid && i >= 1;
+            if bad || (should_succeed && *verdict != "ok") {
+                rep.violation(c, "C14/on-parse-with-a-reused-configuration", &format!("parses with one configuration value whose callback rejects its first module: {:?} (verdict:callback runs per parse); input valid: {}", steps, valid), &[]);
+                break;
+            }
+        }
+    }
     // repeated round trips: walrus still exactly once
     let mut rounds = 0;
     for r in 1..=5 {
